@@ -421,6 +421,12 @@ func (g *jsGen) expr(d int) string {
 		if op == "instanceof" {
 			b = r.Pick([]string{"Object", "Array", "Function", "Error"})
 		}
+		if op == "in" || op == "instanceof" {
+			// the right operand must stay an object / a constructor whatever surrounds it: an operator that
+			// binds tighter (`x instanceof Array>>>y`) makes the expression throw a TypeError, and expressions
+			// that throw from operators on non-call operands are the recorded js-bigint-mix-dropped family
+			return "(" + g.paren(a) + " " + op + " (" + b + "))"
+		}
 		if op == "??" || op == "**" {
 			// mixing ?? with ||/&& and unary with ** needs parentheses: generate them
 			return "((" + a + ")" + op + "(" + b + "))"
@@ -569,7 +575,7 @@ func (g *jsGen) args() string {
 func (g *jsGen) destructAssign(d int) string {
 	a, b := g.someVar(true), g.someVar(true)
 	if g.inObjMethod > 0 {
-		return "[" + a + "," + b + "]=[1,2]"
+		return a + "=1," + b + "=2" // guard js-objmethod-nested-object: `[a,b]=...` is an array literal with identifiers
 	}
 	switch g.r.Intn(4) {
 	case 0:
